@@ -234,6 +234,13 @@ def harness_plan(prop, tier, quick, thorough, min_eval=1000, policy=None, extra=
     """quick / thorough: list of (flavour, processes, cases per process)"""
     c = Check(prop, tier, RULES[prop], level=level, assumptions=COMMON_ASSUMPTIONS + (assumptions or []),
               min_evaluations=min_eval)
+    if prop in ("C01", "C03", "C04", "C07", "C13", "C17"):
+        # the same workload with the documented run-time trace switched on (YOMM2_TRACE=1), on the
+        # policies that have the trace facet: code under 'if (trace_enabled)' runs too
+        from vfcheck import Job as _Job
+        for i, s in enumerate(seeds(2 if tier == "quick" else 6, 4242 + sum(map(ord, prop)))):
+            c.add(_Job("rel" if i % 2 == 0 else "asan", prop, s, 60 if tier == "quick" else 1500,
+                       policy="P_dbg,P_thr,P_indc,P_proj,P_def,P_b", trace=True, timeout=3600 if tier == "quick" else 6 * 3600))
     if prop in ("C01", "C02", "C03", "C08", "C09", "C15", "C17"):
         c.post = disp_post
     if prop == "C07":
